@@ -99,6 +99,10 @@ class AElem(Abstract):
             return SIte(self.text_none, None, SVal(str, self.textv))
         raise C.Unsupported(f"elem.{name}")
 
+    def p_setattr(self, it, name, value):
+        # frame (C17): the child element belongs to the caller's tree - any store is logged and fails the clause
+        it.st.ghost.setdefault("input_writes", []).append(("elem", name))
+
 
 class AArgs(Abstract):
     """list of positional values: symbolic base + appended items"""
@@ -242,8 +246,9 @@ CONTRACTS = [
              requires=["spec.aggregate.is_unknown(SPEC, elem.tag)"],
              ensures=[("accumulator-unchanged", "result[0] == accum[0] and result[1] == accum[1] and result[2] == accum[2] and result[3] == accum[3]"),
                       ("one-warning", "len(ghost['warnings']) == 1"),
-                      ("not-entered", "len([c for c in ghost['calls'] if c[0] == 'from_etree']) == 0")],
-             notes="update_args (closure of Aggregate._convert): unknown tag", props=["C07", "C04", "C03"], symbolic_only=True),
+                      ("not-entered", "len([c for c in ghost['calls'] if c[0] == 'from_etree']) == 0"),
+                      ("aux-child-element-not-written", "len(ghost.get('input_writes', [])) == 0")],
+             notes="update_args (closure of Aggregate._convert): unknown tag", props=["C07", "C04", "C03", "C17"], symbolic_only=True, aux=["aux-child-element-not-written"]),
     # 1  C04 (top): order / duplicate violations are refused
     Contract("ofxtools.models.base:Aggregate._convert",
              args=HARNESS_ARGS, call=call_update_args,
@@ -251,9 +256,10 @@ CONTRACTS = [
              raises=[(OFXSpecError, "spec.aggregate.step_error(SPEC, LISTNAMES, accum, elem.tag)", "must"),
                      (OFXSpecError, "spec.aggregate.needs_subaggregate(UNSUPPORTED, spec.aggregate.attr_of(elem.tag), elem.text)", "may")],
              ensures=[("C03-value-routed", "spec.aggregate.same_accum(result, spec.aggregate.step_result(SPEC, LISTNAMES, UNSUPPORTED, accum, elem.tag, elem.text, " + AGGV + "))"),
-                      ("no-warning", "len(ghost['warnings']) == 0")],
-             notes="update_args: known tag - refines the spec fold step (order check, duplicate check, value routing)",
-             props=["C04", "C03", "C07", "C01"], symbolic_only=True),
+                      ("no-warning", "len(ghost['warnings']) == 0"),
+                      ("aux-child-element-not-written", "len(ghost.get('input_writes', [])) == 0")],
+             notes="update_args: known tag - refines the spec fold step (order check, duplicate check, value routing); the child element is only read",
+             props=["C04", "C03", "C07", "C01", "C17"], symbolic_only=True, aux=["aux-child-element-not-written"]),
 ]
 
 
@@ -510,7 +516,7 @@ CONTRACTS += [
                                              "(not (ga['K'] == 1 and ga['J'] == 0) and result[0] == 'continue')"),
                       ("C17-lookup-stores-nothing", "result[2] == 0")],
              notes="loop body of __getattr__ with a symbolic sub-aggregate: a definer returns the very value stored; anything else moves on; no exception escapes (raises: none allowed)",
-             props=["C16"], symbolic_only=True),
+             props=["C16", "C17"], symbolic_only=True),
     Contract("ofxtools.models.base:Aggregate.__getattr__",
              args=[Const("x", None)], call=call_getattr_nosub,
              raises=[(AttributeError, "True", "must")],
@@ -695,6 +701,10 @@ class ASelfTE(Abstract):
     def p_iter(self, it):
         return list(self.members)
 
+    def p_setattr(self, it, name, value):
+        # frame (C17): writing a model must not change it
+        it.st.ghost.setdefault("input_writes", []).append(("self", name))
+
     def p_getattr(self, it, name):
         if name == "_listAppend":
             # callee contract (proved separately above): exactly one child, the member's tree, appended at the end
@@ -757,8 +767,9 @@ CONTRACTS += [
                  ("absent-child", "spec.aggregate.list_kind(te['TYPE']) or te['VK'] != 0 or (len(result[1]) == 0 and result[2] == te['DO_LIST'])"),
                  ("sub-aggregate", "spec.aggregate.list_kind(te['TYPE']) or te['VK'] != 1 or (len(result[1]) == 1 and spec.aggregate.is_tree_of(result[1][0], te['AGG']) and result[2] == te['DO_LIST'])"),
                  ("C11-element-text-is-unconvert", "spec.aggregate.list_kind(te['TYPE']) or te['VK'] != 2 or (len(result[1]) == 1 and spec.aggregate.is_leaf_for(result[1][0], te['ATTR'], te['OTHER']) and result[2] == te['DO_LIST'])"),
+                 ("C17-model-not-written", "len(ghost.get('input_writes', [])) == 0"),
              ],
              raises=[(ValueError, "not spec.aggregate.list_kind(te['TYPE']) and te['VK'] == 2 and not spec.aggregate.unconvert_accepts_attr(te['ATTR'], te['OTHER'])", "must")],
              notes="body of the loop over spec.items() with a symbolic attribute: list attributes emit all members once (first list attribute only), absent children emit nothing, sub-aggregates emit their tree, elements emit <ATTR>converter.unconvert(value) - nothing else is written; two abstract members stand for the member sequence (the per-member step is Aggregate._listAppend's contract)",
-             props=["C01", "C11", "C13"], symbolic_only=True),
+             props=["C01", "C11", "C13", "C17"], symbolic_only=True),
 ]
